@@ -25,7 +25,8 @@ def run(ctx):
     rng = random.Random(ctx.seed * 3571 + 11)
     ftdiff.run(ctx, rng, 40 * k, ops=("swizzle",))
     recs = pool.collect(ctx, [dict(gen="g7", count=130 * k, modes=["metrics"], nexec=2, reference=True),
-                              dict(gen="g7conv", count=20 * k, modes=["metrics"], nexec=2, reference=True)])
+                              dict(gen="g7conv", count=20 * k, modes=["metrics"], nexec=2, reference=True),
+                              dict(gen="g7lf", count=15 * k, modes=["metrics"], nexec=2, reference=True)])
     keep = []
     for r in recs:
         tags = set(r["case"]["tags"]) if r.get("case") else set()
